@@ -170,6 +170,11 @@ func scenario(s sink.Sink, rng *rand.Rand, sample bool) int {
 		}
 		trigs = append(trigs, trigger{Kind: k, Point: fmt.Sprintf("step-%d", i), Step: i})
 		trigs = append(trigs, trigger{Kind: k, Point: fmt.Sprintf("step-%d", i), Step: i, Hold: true})
+		if sc.Sub != nil && !sc.Sub.Close && i >= sc.Sub.After {
+			// the sub-channel is open and de-registered from the watcher, and the honest party's own
+			// registration is followed by a second one with the state that was in flight
+			trigs = append(trigs, trigger{Kind: k, Point: fmt.Sprintf("step-%d", i), Step: i, Hold: true, CloseSub: true})
+		}
 	}
 	if sc.Sub != nil {
 		for i, st := range sc.Sub.Steps {
@@ -271,7 +276,11 @@ func execute(s sink.Sink, seed int64, sc scen.Scenario, tg trigger, sample bool)
 				return
 			}
 			_ = r.SubCh[0].Close()
-			r.W.Quiesce()
+			if strings.HasSuffix(tg.Kind, "in-flight-responder") {
+				r.W.QuiesceBusy(1)
+			} else {
+				r.W.Quiesce()
+			}
 		}
 		// B's fully signed transactions of the ledger channel, oldest first
 		var txs []recpr.Event
